@@ -507,7 +507,10 @@ func c17Hostile(c *core.Ctx) {
 			valid = jReq{Name: model, Inputs: []jInput{{"i1", uniformSeries(c.R, T, 0, 5)}, {"i2", uniformSeries(c.R, T, 0, 5)}}}
 		}
 		k := c.R.Intn(len(valid.Inputs))
-		if c.R.Bool(0.5) {
+		if c.R.Bool(0.3) {
+			valid.Inputs[k].Values = []float64{} // one series present but empty, the others not
+			c.Tag("hostile:one-empty-series")
+		} else if c.R.Bool(0.5) {
 			valid.Inputs[k].Values = append(valid.Inputs[k].Values, uniformSeries(c.R, c.R.IntRange(1, 5), 0, 5)...)
 		} else if len(valid.Inputs[k].Values) > 1 {
 			valid.Inputs[k].Values = valid.Inputs[k].Values[:len(valid.Inputs[k].Values)-1]
